@@ -89,13 +89,17 @@ impl Store for Guarded {
 }
 
 fn draw_cap(r: &mut Rng) -> i64 {
-    match r.below(10) {
-        0 | 1 => 1,
-        2 | 3 => 2,
-        4 => 3,
+    match r.below(20) {
+        0..=3 => 1,
+        4..=7 => 2,
+        8 | 9 => 3,
+        // rare large capacities: around powers of two, primes
+        10 => *r.pick(&[15i64, 16, 17, 31, 32, 33, 63, 64, 65, 97, 100, 127, 128, 129]),
+        11 => r.range(10, 130),
         _ => r.range(1, 9),
     }
 }
+const MAX_CAP: i64 = 130;
 
 macro_rules! with_array {
     ($cap:expr, $data:expr, $f:ident, $($rest:expr),*) => {
@@ -513,14 +517,15 @@ impl Scenario for BoundedScenario {
     }
     fn runs(&self, tier: &str) -> u64 {
         if tier == "quick" {
-            400_000
+            1_000_000
         } else {
             30_000_000
         }
     }
     fn run(&self, src: &mut Source, obs: &mut Observer) -> Result<(), Violation> {
-        let cap = src.cfg("cap", 1, 9, draw_cap) as usize;
+        let cap = src.cfg("cap", 1, MAX_CAP, draw_cap) as usize;
         let storage = src.cfg("storage", 0, 4, |r| r.range(0, 4));
+        let storage = if cap > 9 && storage == 4 { 3 } else { storage };
         let start = src.cfg("start", 0, cap as i64 - 1, |r| {
             if r.chance(1, 4) {
                 0
@@ -533,7 +538,7 @@ impl Scenario for BoundedScenario {
             1 => cap as i64,
             _ => r.range(0, cap as i64),
         }) as usize;
-        let steps = src.cfg("steps", 0, 120, |r| r.range(1, 120)) as usize;
+        let steps = src.cfg("steps", 0, 3000, |r| if r.chance(1, 40) { r.range(500, 3000) } else { r.range(1, 120) }) as usize;
         let opmask = src.cfg("opmask", 0, (1 << B_NOPS) - 1, |r| {
             (r.next_u64() | r.next_u64()) as i64 & ((1 << B_NOPS) - 1)
         }) as u64;
@@ -544,7 +549,21 @@ impl Scenario for BoundedScenario {
         for i in 0..len {
             data[(start + i) % cap] = 1000 + i as u64;
         }
-        obs.note(cap as u64 * 1000 + storage as u64 * 100 + start as u64 * 10 + len as u64);
+        // constructor: 0 from_raw_parts (recovered state), 1 From<S> (empty), 2 from_full, 3 FromIterator
+        let ctor = src.cfg("ctor", 0, 3, |r| if r.chance(3, 4) { 0 } else { r.range(1, 3) });
+        obs.note(cap as u64 * 1000 + storage as u64 * 100 + start as u64 * 10 + len as u64 + ctor as u64 * 7919);
+        if ctor != 0 {
+            let full: Vec<u64> = (0..cap as u64).map(|i| 1000 + i).collect();
+            let (rb, live) = match ctor {
+                1 => (Bounded::from(data.clone()), 0),
+                2 => (Bounded::from_full(full), cap),
+                _ => (full.iter().copied().collect::<Bounded<Vec<u64>>>(), 0),
+            };
+            // check that the constructor produced the documented state, then continue from it
+            let (s0, l0, d0) = unsafe { rb.into_raw_parts() };
+            check_eq!(obs, (s0, l0, d0.len()), (0, live, cap), "bounded.constructor", "(start, len, capacity) after constructor {}", ctor);
+            return drive_bounded(d0, s0, l0, steps, opmask, src, obs);
+        }
         match storage {
             0 => drive_bounded(data, start, len, steps, opmask, src, obs),
             1 => drive_bounded(data.into_boxed_slice(), start, len, steps, opmask, src, obs),
@@ -899,14 +918,15 @@ impl Scenario for FixedScenario {
     }
     fn runs(&self, tier: &str) -> u64 {
         if tier == "quick" {
-            400_000
+            1_000_000
         } else {
             30_000_000
         }
     }
     fn run(&self, src: &mut Source, obs: &mut Observer) -> Result<(), Violation> {
-        let n = src.cfg("n", 1, 9, draw_cap) as usize;
+        let n = src.cfg("n", 1, MAX_CAP, draw_cap) as usize;
         let storage = src.cfg("storage", 0, 4, |r| r.range(0, 4));
+        let storage = if n > 9 && storage == 4 { 3 } else { storage };
         let first = src.cfg("first", 0, n as i64 - 1, |r| {
             if r.chance(1, 4) {
                 0
@@ -914,12 +934,19 @@ impl Scenario for FixedScenario {
                 r.range(0, n as i64 - 1)
             }
         }) as usize;
-        let steps = src.cfg("steps", 0, 120, |r| r.range(1, 120)) as usize;
+        let steps = src.cfg("steps", 0, 3000, |r| if r.chance(1, 40) { r.range(500, 3000) } else { r.range(1, 120) }) as usize;
         let opmask = src.cfg("opmask", 0, (1 << X_NOPS) - 1, |r| {
             (r.next_u64() | r.next_u64()) as i64 & ((1 << X_NOPS) - 1)
         }) as u64;
         let data: Vec<u64> = (0..n as u64).map(|i| 1000 + i).collect();
-        obs.note(n as u64 * 1000 + storage as u64 * 100 + first as u64);
+        let ctor = src.cfg("ctor", 0, 2, |r| if r.chance(3, 4) { 0 } else { r.range(1, 2) });
+        obs.note(n as u64 * 1000 + storage as u64 * 100 + first as u64 + ctor as u64 * 7919);
+        if ctor != 0 {
+            let rb: Fixed<Vec<u64>> = if ctor == 1 { Fixed::from(data.clone()) } else { data.iter().copied().collect() };
+            let (f0, d0) = rb.into_raw_parts();
+            check_eq!(obs, (f0, d0.len()), (0, n), "fixed.constructor", "(first, len) after constructor {}", ctor);
+            return drive_fixed(d0, f0, steps, opmask, src, obs);
+        }
         match storage {
             0 => drive_fixed(data, first, steps, opmask, src, obs),
             1 => drive_fixed(data.into_boxed_slice(), first, steps, opmask, src, obs),
